@@ -269,8 +269,11 @@ CONFIG = {
                 "cancelled or the Channel is closed); non-trivial = >=6 operations with operations of different goroutines overlapping. "
                 "chanrace: a barrier-synchronised race lane — 40-300 rounds per case in which two operations drawn from Get/Rollback/Commit/Buffer are released together with sweeping spin "
                 "offsets, separated by sequential probes; the whole history is checked by porcupine. chanbulk: large pending buffers (batches of 64-700 values taken, optionally replayed, then "
-                "committed) while 1-3 goroutines call Buffer() continuously: every snapshot must be a contiguous run of the source stream.",
-        "jobs": [{"name": "chandone", "test": "TestChanDoneLane", "checks": {"quick": 1200, "thorough": 120000}, "shards": {"quick": 4, "thorough": 16}, "stall_sig": "C13/stall"},
+                "committed) while 1-3 goroutines call Buffer() continuously: every snapshot must be a contiguous run of the source stream. "
+                "chandonegate: a Get is stopped (instrumentation point inside its critical section, after its closed-check and before its receive) while the Channel is shut down by cancelling "
+                "its parent context or by Close; if Done is seen closed while the Get stands there, the source must hold the same number of values after that Get returned.",
+        "jobs": [{"name": "chandonegate", "test": "TestChanDoneGate", "checks": {"quick": 600, "thorough": 60000}, "shards": {"quick": 4, "thorough": 16}, "stall_sig": "C13/stall"},
+                 {"name": "chandone", "test": "TestChanDoneLane", "checks": {"quick": 1200, "thorough": 120000}, "shards": {"quick": 4, "thorough": 16}, "stall_sig": "C13/stall"},
                  chanstep("C13", 24000, 800000),
                  {"name": "chanrace", "test": "TestChanRace", "checks": {"quick": 3000, "thorough": 150000}, "shards": {"quick": 6, "thorough": 16}, "stall_sig": "C13/stall"},
                  {"name": "chanbulk", "test": "TestChanBulk", "checks": {"quick": 240, "thorough": 12000}, "shards": {"quick": 4, "thorough": 8}, "stall_sig": "C13/stall"},
